@@ -98,6 +98,27 @@ PROPERTIES = {
         "not_decided": ["eventual recovery of every lost packet (liveness)", "RTCRtpSender._retransmit / RTX wrapping",
                         "cardinality step |missing| <= 128 from the invariant", "decoder thread hand-off"],
     },
+    "C12": {
+        "claim": "Proof for RtpRouter under a class invariant established by __init__ and preserved by every method (every "
+                 "receiver named by the SSRC table, a payload-type set or the MID table is currently registered; table values "
+                 "are never None): route_rtp returns the receiver registered for the packet's SSRC iff it accepts the payload "
+                 "type, else for an unknown SSRC the only receiver accepting the payload type and latches that SSRC to it, else "
+                 "None with no change, and whatever it returns is a registered receiver; route_rtcp (verified once per RTCP packet "
+                 "class) returns exactly the receiver of an SR's SSRC and the senders of the SSRCs reported on (SR/RR), the "
+                 "receivers of a BYE's sources, the sender of a feedback packet's media SSRC, and for REMB the senders of every "
+                 "SSRC listed in a well-formed FCI, never None, never raising; unregister_receiver/unregister_sender remove "
+                 "every mention of the object and change nothing else; register_* add exactly the stated entries. Because the "
+                 "invariant and these contracts are pre/postconditions of every operation they hold for every interleaving of "
+                 "registrations, unregistrations and packets.",
+        "note": "Receivers/senders are opaque references compared by identity; MID strings are modelled as opaque ids (used only "
+                "as dictionary keys). For PSFB packets the 'only these recipients' direction is not stated (the 'at least "
+                "these' direction and non-None are); the dispatch in RTCDtlsTransport._handle_rtp_data/_handle_rtcp_data that "
+                "calls the router is not under contract.",
+        "design_ref": "DESIGN.md 4.12, 9",
+        "trusted_base": COMMON,
+        "not_decided": ["RTCDtlsTransport._handle_rtp_data/_handle_rtcp_data (callers of the router)",
+                        "upper bound on the recipients of PSFB/REMB packets"],
+    },
     "C15": {
         "claim": "Proof that every integer bitrate in [0, 2^64) with up to 255 32-bit SSRCs is encodable by pack_remb_fci "
                  "and decodes to the listed SSRCs exactly, with mantissa*2^exp <= bitrate. Reduced: rate.py (estimator, "
@@ -159,7 +180,6 @@ NOT_APPLICABLE = {
     "C04": "OpenSSL handshake, key export and libsrtp are external C code; the repo-owned fingerprint comparison contract was not built (DESIGN 4.4)",
     "C06": _NOT_BUILT + " (_maybe_abandon/_update_advanced_peer_ack_point/prune_chunks; F-15 stays unreported by any check)",
     "C09": "SDP parse/serialise is string/regex code; no contract within reach of the installed solvers decides the round trip (DESIGN 4.9)",
-    "C12": _NOT_BUILT + " (RtpRouter; dict/set-heavy code, DESIGN 4.12)",
     "C13": _NOT_BUILT + " (DCEP codec, _setReadyState, bufferedAmount accounting; F-16 stays unreported by any check)",
     "C14": _NOT_BUILT + " (JSEP projection of setLocal/RemoteDescription, DESIGN 4.14)",
     "C19": "termination and absence of leftover tasks/threads across coroutine interleavings is not expressible as a function contract (DESIGN 4.19)",
